@@ -161,6 +161,11 @@ def unused_table(run):
         one('aliases-crossed-over-two-lines', 'from x import (a1 as b1,\n               b1 as a1)\n',
             [('W02', 'Unused import: b1', 1, 21), ('W02', 'Unused import: a1', 2, 21)], path)
         one('function-import-of-the-modules-own-name', 'def f_():\n    from time import time\n', [('W01', 'Unused name: time', 2, 21)], path)
+        # locals() reads every local of the function, also one bound in several branches
+        one('locals-reads-a-name-bound-in-two-branches', 'def f_(c_):\n    if c_:\n        unused_v = 1\n    else:\n        unused_v = 2\n    return locals()\n', [], path)
+        one('locals-reads-a-name-bound-in-one-branch', 'def f_(c_):\n    if c_:\n        unused_v = 1\n    return locals()\n', [], path)
+        one('locals-does-not-read-the-locals-of-an-inner-function',
+            'def f_():\n    def g_():\n        unused_v = 1\n    return locals()\n', [('W01', 'Unused name: unused_v', 3, 8)], path)
         # declarations: `global` at module level changes nothing; in a function the binding belongs to the module
         one('module-level-global-then-unused-import', 'global os\nimport os\n', [('W02', 'Unused import: os', 2, 7)], path)
         one('module-level-global-then-unused-from-import', 'global path\nfrom os import path\nimport sys\nprint(sys)\n',
